@@ -954,6 +954,44 @@ fn main() {
         }
         std::process::exit(0);
       }
+      "pubsub_frame_by_frame" => {
+        // pubsub_frame_by_frame <tcp|inproc> <n>: public API. SUB subscribed to "T"; PUB sends n two-frame messages
+        // ["T<i>", "body<i>"] FRAME BY FRAME: send(first, MORE) then send(second). The SUB reads with recv_multipart and
+        // every message it gets is printed; each must be exactly the two frames of one message.
+        let transport = it.next().unwrap().to_string();
+        let n: usize = it.next().unwrap().parse().unwrap();
+        let rt = tokio::runtime::Builder::new_multi_thread().worker_threads(2).enable_all().build().unwrap();
+        let got = rt.block_on(async move {
+          let ctx = rzmq::Context::new().unwrap();
+          let publ = ctx.socket(rzmq::SocketType::Pub).unwrap();
+          let sub = ctx.socket(rzmq::SocketType::Sub).unwrap();
+          sub.set_option(rzmq::socket::options::RCVTIMEO, 500i32).await.unwrap();
+          sub.set_option_raw(rzmq::socket::options::SUBSCRIBE, b"T").await.unwrap();
+          let ep = if transport == "inproc" {
+            publ.bind("inproc://fbf").await.unwrap();
+            "inproc://fbf".to_string()
+          } else {
+            publ.bind("tcp://127.0.0.1:0").await.unwrap();
+            String::from_utf8(publ.get_option(rzmq::socket::options::LAST_ENDPOINT).await.unwrap()).unwrap()
+          };
+          sub.connect(&ep).await.unwrap();
+          tokio::time::sleep(Duration::from_millis(400)).await;
+          for i in 0..n {
+            let mut first = rzmq::Msg::from_vec(format!("T{}", i).into_bytes());
+            first.set_flags(rzmq::MsgFlags::MORE);
+            publ.send(first).await.unwrap();
+            publ.send(rzmq::Msg::from_vec(format!("body{}", i).into_bytes())).await.unwrap();
+          }
+          let mut got: Vec<Vec<String>> = Vec::new();
+          while let Ok(m) = sub.recv_multipart().await {
+            got.push(m.iter().map(|f| String::from_utf8_lossy(f.data().unwrap_or(&[])).into_owned()).collect());
+          }
+          got
+        });
+        let want: Vec<Vec<String>> = (0..n).map(|i| vec![format!("T{}", i), format!("body{}", i)]).collect();
+        println!("pubsub_frame_by_frame {} received={:?}{}", n, got, if got != want { "  NOT-THE-MESSAGES-SENT" } else { "" });
+        std::process::exit(0);
+      }
       "dealer_tx_wait" => {
         // dealer_tx_wait <sndtimeo_ms> <hold_ms> <cycles>: public API. DEALER (SNDTIMEO as given) connected to a ROUTER that
         // reads everything. Task A sends two-frame messages frame by frame - send(part, MORE), sleep <hold_ms>, send(last) -
